@@ -12,6 +12,10 @@ CHECKS = {
              text="Exhaustive TLC check of the budget bound and isolation on the bucket model (5 addresses in 3 subnets incl. IPv4-mapped, all arrival interleavings within bounds, with and without the global bucket); one arrival history per distinct model state plus seeded random histories are replayed into the real limiter.ClientLimiter under 8 configuration shapes (explicit, omitted and out-of-range masks, omitted burst) and TLC checks each recorded decision for equality with the model, the window budget on the admitted costs and that only the caller's subnet is charged.",
              note="Virtual-time replay (AllowN takes now as an argument); float arithmetic of x/time/rate kept exact by construction of the stimuli; live-listener clauses are checked on router traces.",
              ref="DESIGN.md section 4 C15"),
+ "C05": dict(technique="TLA+ model of one multiplexed connection (TLC exhaustive over all interleavings of exchanges, adversarial server sends, duplication, drops, cancellation, close) + trace validation of hook events from pipeline_conn.go and scripted-server events by TLC",
+             text="TLC exhausts every interleaving of 3 (thorough: 4) exchanges on a connection with 2 (3) wire IDs against a server that may reply to any ID at any time, with duplication, loss, cancellation and close at every point, checking match/no-share/ID-distinctness/monotone counter; the real PipelineTransport (UDP and TCP) is then driven by 32 concurrent callers against a seeded adversarial server (out-of-order, late-after-cancel, duplicate, unsolicited-future-ID, dropped replies, oversized writes) and one connection object is driven through more than 65536 exchanges; TLC validates the recorded hook/server/caller events against the trace specification and evaluates every C05 invariant at every event.",
+             note="Real-code schedules are sampled; hook events are emitted under the connection's lock; server sends are logged before the bytes are written.",
+             ref="DESIGN.md section 4 C05"),
 }
 
 PENDING_REASON = "check under construction in this round (see DESIGN.md section 4); not claimed until its machinery is committed and passes on the unchanged tree"
